@@ -1514,7 +1514,11 @@ impl Model for Cw1Model {
                 }
             }
             Act::Dec { spender, denom, amt, exp, .. } => {
-                if let Some((mut m, e0)) = rpre.allow.get(spender).cloned() {
+                // an allowance whose deadline has passed is no allowance any more: there is nothing a
+                // decrease could take from it, and winding it down does not make the deadline go away
+                // (a later increase without a new expiry still has to be refused)
+                let live = rpre.allow.get(spender).cloned().filter(|(_, e)| !e.expired(h, t));
+                if let Some((mut m, e0)) = live {
                     let c = m.get(denom).copied().unwrap_or(0);
                     m.insert(*denom, c.saturating_sub(amt.0));
                     m.retain(|_, x| *x != 0);
